@@ -2,6 +2,7 @@ import AmaranthVerif.Proofs.DomainQuiet
 import AmaranthVerif.Spec.DomainSpec
 import AmaranthVerif.Proofs.ProcessSpec
 import AmaranthVerif.Proofs.ResetSpec
+import AmaranthVerif.Proofs.DomainRefineComb
 
 /-!
 # C03 — clock domains, resets and control inserters behave as specified
@@ -41,12 +42,34 @@ Proved here for all designs, states and events:
   the process drives takes its initial value, bit for bit; reset-less signals take the assigned values as without
   reset; undriven bits keep theirs.
 
-Not proved for all inputs (compared on every run): the combinational settling after the synchronous phase, and
-Model = `Spec/DomainSpec.lean` as a whole (no theorem mentions the Spec's `specEvent`; the theorems here are about
-the Model, whose agreement with the Spec and the code is checked on every run). `sync_no_reset`,
-`sync_reset_loads_init`, `async_reset_only_resettable`, `renamer_moves_only_domain` and `inserter_other_domain`
-only unfold the Model's definitions: they record its shape, the content is in the `*_bits`, `edge_*`, `only_own_edge`
-and inserter theorems.
+**Model = Spec (refinement), for all designs, states and events.** The theorems above are about the Model — the
+statement rewriting `_xfrm.py` performs, then one run of the compiled process and its commit. The Spec
+(`Spec/DomainSpec.lean`, `specEvent`) reads the property's sentences directly: wrappers act semantically, inside out,
+per driven bit. `SpecDesign.model` is the Model's reading of a Spec design (per leaf: lower the program, apply
+`resetInserter` / `enableInserter` / `domainRenamer` in stack order — what the driver evaluates as `model=`):
+* `leaf_final_domain` — the Model's process of a leaf sits in the domain the Spec computes (`Leaf.finalDom`);
+* `leaf_edge_model_eq_spec` — active clock edge, any wrapper stack, any domain-reset value: running the rewritten
+  statements and committing through the static masks is `mergeDriven … (Leaf.edgeValue D l cur') …` followed by the
+  domain-reset merge, on every signal;
+* `leaf_arst_model_eq_spec` — a rising asynchronous reset without an active edge;
+* `leaf_event_model_eq_spec` — one leaf at any event (edge, reset rise, both, neither);
+* `sync_phase_model_eq_spec` — the whole synchronous phase of `specEvent`, any number of coinciding edges (no
+  one-driver-per-bit hypothesis: both sides merge a leaf's driven bits into what the leaves before it left);
+* `comb_leaf_model_eq_spec`, `event_model_eq_spec` — combinational leaves, settling, and the whole event:
+  `eventStep D.model cur changes = specEvent D cur changes`.
+Hypotheses (`LeafOk`, `Proofs/DomainRefine.lean`): the program is what the DSL accepts (`Prog.listOk`); targets are
+assignable (`twf`) and no slice / part-select operand addresses a signal bit twice (`noAlias`, forced by finding F9 as
+in C02); inserter controls are well-formed expressions (no width-1 requirement: `Switch(ctl){1: …}` selects iff the
+value is the integer 1, `ctl_is_one`); states within shapes (`EnvN`); and `PartsReached`: every operand bit of a
+part-select in a target is also *positionally* driven. The last one marks a genuine difference found by this proof:
+`LHSMaskCollector` marks the whole operand of a `Part` even when an enclosing slice/concatenation window can never
+reach it, the Spec's positional `drivenBy` does not — `part_under_window_witness` is the design on which Model (= the
+real simulator) and Spec differ. `Spec/DrivenPart.lean` holds the repaired notion (`progDrivesP`), for which
+`progMask_iff` holds without that hypothesis; `PartsReached` is used in exactly one lemma (`progMask_drives`).
+
+`sync_no_reset`, `sync_reset_loads_init`, `async_reset_only_resettable`, `renamer_moves_only_domain` and
+`inserter_other_domain` only unfold the Model's definitions: they record its shape, the content is in the `*_bits`,
+`edge_*`, `only_own_edge`, inserter and `*_model_eq_spec` theorems.
 -/
 
 namespace Amaranth.C03
@@ -395,5 +418,159 @@ example : (List.range 4).all (fun i => (List.range 3).all fun b =>
 example : syncPhase exTwo [0, 0, 5, 1] [1, 1, 5, 1] = [1, 1, 6, 1] := by decide   -- s3 := s2 reads the pre-commit 5 → 5 % 4 = 1
 example : exTwo.procs.foldl (fun acc p => if fires exTwo [0, 0, 5, 1] [1, 1, 5, 1] p then
     applyWrites exTwo.ctx [1, 1, 5, 1] (stmtWrites exTwo.ctx [1, 1, 5, 1] p.body) acc else acc) [1, 1, 5, 1] = [1, 1, 6, 1] := by decide
+
+/-! ### Refinement: the Model (statement rewriting, one process run, commit through masks) is the Spec (wrappers read
+semantically, inside out, per driven bit) -/
+
+/-- `specEvent` is: apply the changes, `specSyncPhase` (the fold of `specLeafSync` over the leaves), then the
+combinational leaves settle — the names used below are the pieces of `specEvent` itself. -/
+theorem spec_event_pieces (D : SpecDesign) (cur : Env) (changes : List (Nat × Int)) :
+    specEvent D cur changes =
+      specEvent.settle (specCombOnce D) (D.leaves.length + 2)
+        (specCombOnce D (specSyncPhase D cur (applyChanges cur changes))) :=
+  specEvent_eq D cur changes
+
+/-- The Model's process of a leaf ends up in the domain the Spec computes from the renames of the wrapper stack. -/
+theorem leaf_final_domain (D : SpecDesign) (l : Leaf) (cur' : Env) (hC : EnvN D.ctx cur') (hI : EnvN D.ctx D.inits)
+    (hl : LeafOk D cur' l) : (leafProc D l).dom = l.finalDom :=
+  (leaf_inv D l cur' hC.toOk hC hI hl).1
+
+/-- **One leaf at an active clock edge: Model = Spec.** For every leaf — a program in a synchronous domain under any
+stack of reset inserters, enable inserters (on any domains, with any control expressions) and renames — the Model's
+treatment (lower the program, apply the inserter rewritings of `_xfrm.py` in stack order, run the resulting process on
+the committed values `cur'` with the domain's reset value `rst`, commit into `acc` through the static masks) produces on
+every signal exactly the Spec's value: `Leaf.edgeValue` (the assigned values, then every wrapper inside out, per driven
+bit), then the domain's own reset, merged into `acc` on the driven bits. -/
+theorem leaf_edge_model_eq_spec (D : SpecDesign) (l : Leaf) (cur' acc : Env) (rst : Option Int)
+    (hC : EnvN D.ctx cur') (hI : EnvN D.ctx D.inits) (hA : EnvN D.ctx acc)
+    (hprog : Prog.listOk D.ctx l.prog = true)
+    (htg : ∀ e ∈ Prog.listTargets l.prog, e.twf D.ctx = true ∧ e.noAlias D.ctx cur')
+    (hparts : PartsReached D.ctx l.prog)
+    (hctl : ∀ w ∈ l.wrappers, w.ctlWf D.ctx = true) :
+    commitInto D.ctx (leafProc D l).body (syncNext D.ctx D.inits D.resetLess rst (leafProc D l).body cur') acc =
+      mergeDriven D.ctx l.prog (fun _ => true)
+        (if rst.getD 0 % 2 = 1 then
+          mergeDriven D.ctx l.prog (fun i => !(D.resetLess.getD i false)) D.inits (l.edgeValue D cur')
+         else l.edgeValue D cur') acc :=
+  leaf_edge_refines D l cur' hC.toOk hC hI ⟨hprog, htg, hparts, hctl⟩ rst acc hA
+
+/-- **One leaf when an asynchronous reset rises without an active edge: Model = Spec.** The reset-only process of the
+rewritten statements loads the initial values into exactly the bits the Spec names: the driven bits of the
+non-reset-less signals (the inserted statements do not change what the leaf drives). -/
+theorem leaf_arst_model_eq_spec (D : SpecDesign) (l : Leaf) (cur' acc : Env)
+    (hC : EnvN D.ctx cur') (hI : EnvN D.ctx D.inits) (hA : EnvN D.ctx acc)
+    (hprog : Prog.listOk D.ctx l.prog = true)
+    (htg : ∀ e ∈ Prog.listTargets l.prog, e.twf D.ctx = true ∧ e.noAlias D.ctx cur')
+    (hparts : PartsReached D.ctx l.prog)
+    (hctl : ∀ w ∈ l.wrappers, w.ctlWf D.ctx = true) :
+    resetOnlyInto D.ctx D.inits D.resetLess (leafProc D l).body acc =
+      mergeDriven D.ctx l.prog (fun i => !(D.resetLess.getD i false)) D.inits acc :=
+  leaf_arst_refines D l cur' hC.toOk hC hI ⟨hprog, htg, hparts, hctl⟩ acc hA
+
+/-- **One leaf at any event** (active edge, rising asynchronous reset, both at once, or neither): what the Model's
+process does to `acc` is what the leaf contributes to the synchronous phase of `specEvent`. -/
+theorem leaf_event_model_eq_spec (D : SpecDesign) (l : Leaf) (cur cur' acc : Env)
+    (hC : EnvN D.ctx cur') (hI : EnvN D.ctx D.inits) (hA : EnvN D.ctx acc) (hl : LeafOk D cur' l) :
+    procAtEvent D.model cur cur' (leafProc D l) acc = specLeafSync D cur cur' acc l :=
+  (leaf_event_refines D l cur' hC.toOk hC hI hl cur acc hA).1
+
+/-- **The synchronous phase of a whole event: Model = Spec**, for every design with well-formed leaves, every state and
+every set of simultaneous changes (any number of coinciding clock edges and reset rises, several leaves driving
+different bits of one signal from different domains included). -/
+theorem sync_phase_model_eq_spec (D : SpecDesign) (cur cur' : Env) (hC : EnvN D.ctx cur') (hI : EnvN D.ctx D.inits)
+    (hl : ∀ l ∈ D.leaves, LeafOk D cur' l) :
+    syncPhase D.model cur cur' = specSyncPhase D cur cur' :=
+  sync_phase_refines D cur cur' hC.toOk hC hI hl
+
+/-- **A combinational leaf: Model = Spec** (wrappers never touch combinational logic). -/
+theorem comb_leaf_model_eq_spec (D : SpecDesign) (l : Leaf) (snap acc : Env) (hC : EnvN D.ctx snap)
+    (hI : EnvN D.ctx D.inits) (hA : EnvN D.ctx acc) (hl : LeafOk D snap l) (hfd : l.finalDom = none) :
+    commitInto D.ctx (leafProc D l).body (combNext D.ctx D.inits (leafProc D l).body snap) acc =
+      mergeDriven D.ctx l.prog (fun _ => true) (progStep D.ctx l.prog snap D.inits) acc :=
+  leaf_comb_refines D l snap hC hI hl hfd acc hA
+
+/-- **A whole event: Model = Spec.** `eventStep` of the Model's reading of the design — commit the changes, every woken
+synchronous process once, reset-only processes, then the combinational processes until nothing changes — is
+`specEvent`. The leaves must be well-formed in every state of the design's shapes (settling passes through states the
+theorem does not name). -/
+theorem event_model_eq_spec (D : SpecDesign) (cur : Env) (changes : List (Nat × Int))
+    (hC : EnvN D.ctx (applyChanges cur changes)) (hI : EnvN D.ctx D.inits)
+    (hl : ∀ e, EnvN D.ctx e → ∀ l ∈ D.leaves, LeafOk D e l) :
+    eventStep D.model cur changes = specEvent D cur changes :=
+  event_refines D cur changes hC hI hl
+
+/-- The static commit masks of a lowered program are the bits the program drives in the code's sense (`progDrivesP`,
+`Spec/DrivenPart.lean`): some position of a target can be the bit, or the bit lies in the operand of a part-select that
+occurs in a target. No `PartsReached` here. -/
+theorem masks_are_driven_bits (ctx : Ctx) (prog : List Prog) (htw : ∀ e ∈ Prog.listTargets prog, e.twf ctx = true)
+    (i b : Nat) : ibit ((progMask ctx prog).get i) b = progDrivesP ctx prog i b :=
+  progMask_iff ctx prog htw i b
+
+/-! #### The design on which the positional Spec and the code differ (why `PartsReached` is there) -/
+
+/-- signals: clk, rst, `a` (2 bits, init 1), `x`, `off`; `sync += Cat(a.bit_select(off, 2), x)[2:3].eq(1)` -/
+def cexLeaf : Leaf :=
+  { dom := some 0, wrappers := [],
+    prog := [.assign (.slice (.cat (.part (.sig 2) (.sig 4) 2 1) (.cat (.sig 3) Expr.nil)) 2 3) (.const 1 ⟨1, false⟩)] }
+def cexD : SpecDesign :=
+  { ctx := [⟨1, false⟩, ⟨1, false⟩, ⟨2, false⟩, ⟨1, false⟩, ⟨1, false⟩], inits := [0, 0, 1, 0, 0],
+    resetLess := [false, false, false, false, false], doms := [{ clk := 0, rst := some 1 }], leaves := [cexLeaf] }
+
+/-- Only `x` can be written, but `LHSMaskCollector` marks all of `a` as driven by the domain, so the domain's reset loads
+`a`'s initial value (Model; the real simulator does the same: `a = 1` after the edge); the positional Spec leaves `a`
+alone. The target is well-formed; `PartsReached` is exactly what fails. -/
+theorem part_under_window_witness :
+    eventStep cexD.model [0, 1, 2, 0, 0] [(0, 1)] = [1, 1, 1, 0, 0] ∧
+    specEvent cexD [0, 1, 2, 0, 0] [(0, 1)] = [1, 1, 2, 0, 0] ∧
+    (∀ l ∈ cexD.leaves, ∀ e ∈ Prog.listTargets l.prog, e.twf cexD.ctx = true) ∧
+    ¬ PartsReached cexD.ctx cexLeaf.prog := by
+  decide
+
+/-! #### Non-vacuity: a reset inserter inside an enable inserter -/
+
+/-- signals: clk, en, rc, `cnt` (3 bits, init 5), `flag`; `sync += [cnt.eq(cnt + 1), flag.eq(1)]` under
+`EnableInserter(en)(ResetInserter(rc)(…))` -/
+def exRLeaf : Leaf :=
+  { dom := some 0, wrappers := [.reset 0 (.sig 2), .enable 0 (.sig 1)],
+    prog := [.assign (.sig 3) (.op2 .add (.sig 3) (.const 1 ⟨1, false⟩)), .assign (.sig 4) (.const 1 ⟨1, false⟩)] }
+def exR : SpecDesign :=
+  { ctx := [⟨1, false⟩, ⟨1, false⟩, ⟨1, false⟩, ⟨3, false⟩, ⟨1, false⟩], inits := [0, 0, 0, 5, 0],
+    resetLess := [false, false, false, false, false], doms := [{ clk := 0 }], leaves := [exRLeaf] }
+
+/-- the leaf meets the hypotheses in every state (its targets are whole signals) -/
+theorem exR_ok (e : Env) : LeafOk exR e exRLeaf :=
+  ⟨by decide,
+   by
+    intro t ht
+    have : t = .sig 3 ∨ t = .sig 4 := by simpa [exRLeaf, Prog.listTargets, Prog.targets] using ht
+    rcases this with rfl | rfl <;> exact ⟨by decide, trivial⟩,
+   by decide, by decide⟩
+
+example : EnvN exR.ctx [1, 1, 1, 6, 0] := ⟨rfl, by decide⟩
+example : EnvN exR.ctx exR.inits := ⟨rfl, by decide⟩
+-- the rewritten statements: the assignments, the inserted reset, all inside the enable's switch
+example : (leafProc exR exRLeaf).body =
+    .ite (.sig 1) (onePattern exR.ctx (.sig 1))
+      (.seq (lowerList exR.ctx exRLeaf.prog)
+        (.ite (.sig 2) (onePattern exR.ctx (.sig 2))
+          (resetStmts exR.ctx exR.inits exR.resetLess (lowerList exR.ctx exRLeaf.prog)) .skip)) .skip := rfl
+-- both sides of `leaf_edge_model_eq_spec`, enable and inserted reset on: the initial values
+example : commitInto exR.ctx (leafProc exR exRLeaf).body
+    (syncNext exR.ctx exR.inits exR.resetLess none (leafProc exR exRLeaf).body [1, 1, 1, 6, 0]) [1, 1, 1, 6, 0] =
+    [1, 1, 1, 5, 0] := by decide
+example : mergeDriven exR.ctx exRLeaf.prog (fun _ => true) (exRLeaf.edgeValue exR [1, 1, 1, 6, 0]) [1, 1, 1, 6, 0] =
+    [1, 1, 1, 5, 0] := by decide
+-- enable on, inserted reset off: the assigned values; enable off: frozen, the inserted reset too
+example : eventStep exR.model [0, 1, 0, 6, 0] [(0, 1)] = [1, 1, 0, 7, 1] ∧
+    specEvent exR [0, 1, 0, 6, 0] [(0, 1)] = [1, 1, 0, 7, 1] := by decide
+example : eventStep exR.model [0, 0, 1, 6, 0] [(0, 1)] = [1, 0, 1, 6, 0] ∧
+    specEvent exR [0, 0, 1, 6, 0] [(0, 1)] = [1, 0, 1, 6, 0] := by decide
+
+-- the hypotheses of `event_model_eq_spec` hold for this design in every state: the theorem applies
+example : eventStep exR.model [0, 1, 1, 6, 0] [(0, 1)] = specEvent exR [0, 1, 1, 6, 0] [(0, 1)] :=
+  event_model_eq_spec exR _ _ ⟨rfl, by decide⟩ ⟨rfl, by decide⟩
+    (fun e _ l hl => by
+      have : l = exRLeaf := by simpa [exR] using hl
+      subst this; exact exR_ok e)
 
 end Amaranth.C03
